@@ -189,18 +189,51 @@ impl StyleSpec {
     pub fn to_arr(&self) -> Value {
         json!([self.tc, self.bg, self.ul.0, self.ul.1, self.st.0, self.st.1])
     }
+    /// The style, constructed along one of several routes of the public API that must all give the same style:
+    /// public fields, the builder with the font first / last / in the middle, a builder made from another style
+    /// whose font is then replaced, `MonoTextStyle::new`.  The route is a deterministic function of the style.
     pub fn build<'a>(&self, font: &'a MonoFont<'a>) -> MonoTextStyle<'a, Gray8> {
-        let mut st: MonoTextStyle<'a, Gray8> = MonoTextStyleBuilder::new().font(font).build();
-        st.text_color = if self.tc >= 0 { Some(Gray8::new(self.tc as u8)) } else { None };
-        st.background_color = if self.bg >= 0 { Some(Gray8::new(self.bg as u8)) } else { None };
-        let deco = |d: (i64, i64)| match d.0 {
-            0 => DecorationColor::None,
-            1 => DecorationColor::TextColor,
-            _ => DecorationColor::Custom(Gray8::new(d.1 as u8)),
+        let route = (self.tc + 3 * self.bg + 5 * self.ul.0 + 7 * self.st.0 + self.ul.1 + self.st.1 + font.character_size.width as i64).rem_euclid(6);
+        self.build_via(font, route as u32)
+    }
+    pub fn build_via<'a>(&self, font: &'a MonoFont<'a>, route: u32) -> MonoTextStyle<'a, Gray8> {
+        let g = |v: i64| Gray8::new(v as u8);
+        let tc = |b: MonoTextStyleBuilder<'a, Gray8>| if self.tc >= 0 { b.text_color(g(self.tc)) } else { b };
+        let bg = |b: MonoTextStyleBuilder<'a, Gray8>| if self.bg >= 0 { b.background_color(g(self.bg)) } else { b };
+        let ul = |b: MonoTextStyleBuilder<'a, Gray8>| match self.ul.0 {
+            0 => b,
+            1 => b.underline(),
+            _ => b.underline_with_color(g(self.ul.1)),
         };
-        st.underline_color = deco(self.ul);
-        st.strikethrough_color = deco(self.st);
-        st
+        let st = |b: MonoTextStyleBuilder<'a, Gray8>| match self.st.0 {
+            0 => b,
+            1 => b.strikethrough(),
+            _ => b.strikethrough_with_color(g(self.st.1)),
+        };
+        match route {
+            1 => st(ul(bg(tc(MonoTextStyleBuilder::new().font(font))))).build(),
+            2 => st(ul(bg(tc(MonoTextStyleBuilder::new())))).font(font).build(),
+            3 => tc(bg(ul(st(MonoTextStyleBuilder::new())).font(font))).build(),
+            4 => {
+                // a decorated style with another font, converted back into a builder, font replaced
+                let other = st(ul(bg(tc(MonoTextStyleBuilder::new().font(&embedded_graphics::mono_font::ascii::FONT_6X10))))).build();
+                MonoTextStyleBuilder::from(&other).font(font).build()
+            }
+            5 if self.tc >= 0 && self.bg < 0 && self.ul.0 == 0 && self.st.0 == 0 => MonoTextStyle::new(font, g(self.tc)),
+            _ => {
+                let mut st: MonoTextStyle<'a, Gray8> = MonoTextStyleBuilder::new().font(font).build();
+                st.text_color = if self.tc >= 0 { Some(g(self.tc)) } else { None };
+                st.background_color = if self.bg >= 0 { Some(g(self.bg)) } else { None };
+                let deco = |d: (i64, i64)| match d.0 {
+                    0 => DecorationColor::None,
+                    1 => DecorationColor::TextColor,
+                    _ => DecorationColor::Custom(g(d.1)),
+                };
+                st.underline_color = deco(self.ul);
+                st.strikethrough_color = deco(self.st);
+                st
+            }
+        }
     }
 }
 
